@@ -26,6 +26,15 @@ ASSUMPTIONS = ['reference policy: first present key among main alias then fallba
                'iff fail_on_no_recorded_result is False, else RecordingKeyError',
                'a call "is present" iff the live run made a call with the same resolved alias and equal captured argument values passed the same way']
 
+def CALLABLE_DEFAULT(*a, **k):
+    raise AssertionError('the configured default result is a value, it must not be called')
+
+
+class CallableDefault(object):
+    def __init__(self, *a, **k):
+        raise AssertionError('the configured default result is a value, it must not be instantiated')
+
+
 SUBSTITUTES = [('none',), ('lit', 5), ('lit', 0), ('lit', ''), ('lit', []), ('lit', {}), ('lit', False), ('fn',)]
 FALLBACKS = [None, ['old.alias'], ['nope'], ['nope', 'old.alias'], ('fn', ['old.alias']), ('fn', ['nope'])]
 
@@ -341,7 +350,7 @@ def random_pair(ctx, case_seed):
         if rng.random() < 0.3:
             d['alias'] = d['alias'] + '.v2'
         d['fail_on_no_result'] = rng.random() < 0.5
-        d['default'] = rng.choice([None, 5, 0, (1, 2), 'dflt'])
+        d['default'] = rng.choice([None, 5, 0, (1, 2), 'dflt', CALLABLE_DEFAULT, CallableDefault])      # a default may be any object, also a callable one
 
     def wrap_try(steps):
         out = []
